@@ -546,6 +546,7 @@ func cmdCheck(args []string) int {
 	}
 	cfg := symgo.Config{Workers: *workers, QueryTimeout: 20 * time.Second}
 	if *tier == "thorough" {
+		cfg.MaxPaths = 3000000
 		cfg.QueryTimeout = 120 * time.Second
 	}
 	os.Setenv("VX_TIER", *tier)
